@@ -22,7 +22,8 @@ CONSTANTS User,        \* set of strings
           Amt, Fee,    \* amounts / fees users may choose
           BaseFees, MinFees,  \* arguments relayers may choose for RequestBatch
           InitBal,     \* initial holding of every user
-          KB, KC       \* batch / bridge-call timeout in external blocks (params)
+          KB, KC,      \* batch / bridge-call timeout in external blocks (params)
+          FeeOps       \* whether increase-fee operations are in the alphabet (the entry point is dead for non-FX pairs on this tree)
 
 VARIABLES bal,      \* [User -> Nat] holdings of the token on fxcore (all representations)
           tx,       \* [1..MaxTx+1 -> [st, u, amt, fee, b]]  st: "none" | "pool" | "batch" | "gone"
@@ -256,7 +257,8 @@ Probe == op' = Op("Probe", None, 0, 0, 0, None, "ok") /\ UNCHANGED svars
 
 Next ==
   \/ \E u \in User, a \in Amt, f \in Fee : SendToExternal(u, a, f)
-  \/ \E u \in User, i \in 1..MaxTx : Cancel(u, i) \/ IncreaseFee(u, i, 1) \/ IncreaseFeeOther(u, i, 1)
+  \/ \E u \in User, i \in 1..MaxTx : Cancel(u, i)
+  \/ (FeeOps /\ \E u \in User, i \in 1..MaxTx : IncreaseFee(u, i, 1) \/ IncreaseFeeOther(u, i, 1))
   \/ \E b \in BaseFees, m \in MinFees : RequestBatch(b, m)
   \/ \E u \in User, a \in Amt : BridgeCall(u, a)
   \/ FxBlock \/ ExtBlock
